@@ -12,13 +12,6 @@ verus! {
 #[verifier::external_body]
 pub fn vx_string_from(s: &str) -> (r: String) ensures r@ == s@ { String::from(s) }
 }
-// `==` on String is equality of the characters (vstd leaves PartialEqSpec for String unspecified): trusted
-pub mod vx_string_eq { use vstd::prelude::*; use vstd::std_specs::cmp::PartialEqSpec;
-verus!{
-pub broadcast axiom fn ax_obeys() ensures #[trigger] <String as PartialEqSpec<String>>::obeys_eq_spec();
-pub broadcast axiom fn ax_eq(a: &String, b: &String) ensures #[trigger] <String as PartialEqSpec<String>>::eq_spec(a, b) == (a@ == b@);
-pub broadcast group g { ax_obeys, ax_eq }
-}}
 
 // ---- R7-style shim: std::collections::HashSet as used by Work::ready_dependents ------------
 // The wrapper holds the real std HashSet; `insert` delegates to it; `into_iter` yields the real
